@@ -17,7 +17,10 @@ pub fn def() -> PropDef {
                check_io_error, scan helpers) over generated source bytes, read schedules (short reads, \
                Interrupted, terminal EOF or error at any offset), chunk sizes and the three constructors \
                (from_buf_reader with a pre-filled BufReader); after every step all observers are compared \
-               with a Vec+cursor model. Non-trivial: the documented realign policy forced at least one \
+               with a Vec+cursor model. Also: interruption storms of up to 5000 consecutive Interrupted results, \
+               look-ahead offsets/lengths next to usize::MAX, BufReaders of 8..64 KiB capacity, one history in six \
+               with calls documented to panic (caught; the state must be unchanged), and histories over 0.3..1 MB \
+               of data with look-ahead of up to 700 KB followed by advancing over most of the window. Non-trivial: the documented realign policy forced at least one \
                realign during the history, or the terminal event happened inside the history with further \
                operations after it. Distinct by hash of the serialised history.",
         assumptions: &[
@@ -48,7 +51,13 @@ pub fn check(h: &History, obs: &mut Obs) -> CheckResult {
 fn run(ctx: &Ctx) {
     // Small buffers with many operations: realigns are frequent because chunk sizes are small.
     let n = ctx.share(ctx.tier.pick(400_000, 6_000_000));
-    let strat = (history_strategy(600, 60, false), prop_oneof![3 => Just(0usize), 2 => 1usize..=64])
+    // one history in six also contains calls that are documented to panic (advancing past the
+    // buffered data); the panic is caught and the reader keeps being used: its state must be
+    // what it was before the rejected call
+    let strat = (
+        prop_oneof![5 => history_strategy(600, 60, false).boxed(), 1 => history_strategy(600, 60, true).boxed()],
+        prop_oneof![3 => Just(0usize), 2 => 1usize..=64],
+    )
         .prop_map(|(mut h, consumed)| {
             h.consumed_before = consumed;
             h
@@ -72,11 +81,14 @@ fn run(ctx: &Ctx) {
         });
     let n = ctx.share(ctx.tier.pick(6_000, 90_000));
     ctx.run_cases("history-large", n, big, check);
+    // Look-ahead of hundreds of kilobytes over 0.3..1 MB of data.
+    let n = ctx.share(ctx.tier.pick(1_600, 32_000));
+    ctx.run_cases("history-huge", n, crate::reader_model::huge_history_strategy(), check);
 }
 
 fn replay(oracle: &str, v: &Value) -> Option<CheckResult> {
     match oracle {
-        "history" | "history-large" => Some(match replay_from_file::<History>(v) {
+        "history" | "history-large" | "history-huge" => Some(match replay_from_file::<History>(v) {
             Ok(h) => check(&h, &mut Obs::default()),
             Err(e) => Err(Failure::new("C02:decode", e)),
         }),
